@@ -6,5 +6,5 @@ P=$1
  flock 9
  /verif/tools/seed_eval.sh $P $2 $3 > /tmp/se_${P}_$2.log 2>&1
  /verif/tools/seed_eval.sh $P $4 $5 > /tmp/se_${P}_$4.log 2>&1
- git -C /repo worktree remove --force /tmp/seed-$P
+ [ -d /tmp/seed-$P ] && git -C /repo worktree remove --force /tmp/seed-$P
 ) 9>${SEED_LOCK:-/tmp/seed_eval.lock}
